@@ -35,6 +35,13 @@ CHECKS = {
              '65536 valuations (thorough). Termination is decided as bounded progress. Held on the executions in the evidence; not a proof over all trees.',
         note='trusts vf/irsem.py; only well-typed inputs (irsem.typecheck) are inside the quantifier; step bound 2000+400*nodes',
         design='2/C05'),
+    'C13': dict(
+        technique='metamorphic runtime monitor (idempotence, AC operand permutations/re-associations) plus cross-process comparison of output digests under different PYTHONHASHSEED values',
+        text='Two executions of the real simplifier that must agree are compared on every generated tree (re-simplification of a memo-free copy; every '
+             'permutation/re-association of AC operands); a fixed corpus of simplified expressions, renderings, lifted semantics and dump_id/dump_mem '
+             'state dumps is produced in 7 (quick) / 32 (thorough) processes with different hash seeds and compared item by item.',
+        note='corpus generation is hash-seed independent by construction (blake2b RNG); trees limited to depth 4',
+        design='2/C13'),
 }
 
 PENDING_REASON = 'check not built yet in this round (runtime-monitoring design in DESIGN.md section 2); not claimed until it runs clean'
